@@ -23,14 +23,14 @@ ID = "C14"
 LEVEL = "exploration"
 RULE = (
     "triangular models (1-2 states, 3-8 algebraic variables incl. *_elim names and an optional 2-element "
-    "array, an input, literal/expression parameters and constants; affine family or nonlinear family) "
+    "array, an input, literal/expression parameters and constants - in a fifth of the models none of them in the DAE equations, and in a third a parameter and a constant that occur in initial equations only; affine family or nonlinear family) "
     "with a known solution s*, x option sets: each of the 11 Boolean simplification options drawn "
     "independently, eliminable_variable_expression in {None, '.*_elim'} (forces expand_mx), "
     "allow_derivative_aliases, iterative_simplification; reduce_affine_expression only for the affine "
     "family.  non-trivial = >= 2 options on and >= 1 variable actually eliminated; distinct = distinct (model, options)."
 )
 ASSUMPTIONS = [
-    "an exception from generate/simplify, or any WARNING logged by pymoca during simplify, counts as 'reports failure' and ends the case as a pass (counted; the fraction is in the evidence)",
+    "an exception from generate/simplify, or a WARNING logged during simplify that says the result is incomplete ('exceeded maximum iteration limit', 'not balanced'), counts as 'reports failure' and ends the case as a pass (counted; the fraction is in the evidence); warnings about a result that is still offered as valid (symbolic instead of numeric affine matrix, which start value was kept) exempt nothing",
     "absence of additional solutions is checked locally: the Jacobian of the simplified residual w.r.t. the remaining derivative/algebraic unknowns has full column rank at s*",
     "parameters and constants are fixed at their declared values, as the statement says",
     "reduce_affine_expression is only drawn for models affine in states/derivatives/algebraics/inputs without time; all constant factors are finite and non-zero (the stated preconditions)",
@@ -76,10 +76,14 @@ def solved_model(draw):
               D.var("c1", prefix="constant", value=["bin", "*", ["int", 2], ["var", "c0"]])]
     if use_array:
         vars_.append(D.var("w", dims=[2]))
-    known = [["var", s] for s in states] + [["var", "u0"], ["var", "p0"], ["var", "p1"], ["var", "c0"], ["var", "c1"]]
+    # now and then the DAE equations mention no parameter and no constant at all (the initial equations may)
+    plain_dae = draw(st.integers(0, 4)) == 0
+    known = [["var", s] for s in states] + [["var", "u0"]]
+    if not plain_dae:
+        known += [["var", "p0"], ["var", "p1"], ["var", "c0"], ["var", "c1"]]
     if use_time:
         known.append(["time"])
-    coefs = KCOEF + [["var", "p0"], ["var", "c0"], ["var", "p1"]]
+    coefs = KCOEF + ([] if plain_dae else [["var", "p0"], ["var", "c0"], ["var", "p1"]])
     unknowns = [("der", s) for s in states] + [("alg", a) for a in algs]
     if use_array:
         unknowns += [("elem", 1), ("elem", 2)]
@@ -203,7 +207,7 @@ def solved_model(draw):
     # sign; together with the shuffled printing order this merges alias groups in every order
     cluster = draw(st.integers(0, 1)) == 1
     if cluster:
-        anchor = draw(st.sampled_from([["var", states[0]], ["var", "u0"], ["var", "p0"]]))
+        anchor = draw(st.sampled_from([["var", states[0]], ["var", "u0"]] + ([] if plain_dae else [["var", "p0"]])))
         nodes = [(anchor, ev(anchor))]
         for gi in range(draw(st.integers(3, 4))):
             gname = "g%d" % gi
@@ -230,8 +234,42 @@ def solved_model(draw):
             vals[gname] = v
             nodes.append((gnode, v))
         kinds.append("alias_cluster")
+    # an eliminable DIFFERENTIATED variable defined through an eliminable algebraic one:
+    #   xs_elim = k * t_elim;  t_elim = yq + c;  der(xs_elim) = d     (eliminating xs_elim promotes t_elim to a
+    # state, eliminating t_elim promotes yq); derivative values of the promoted variables follow from the chain
+    chain = draw(st.integers(0, 3)) == 0
+    if chain:
+        k = draw(st.sampled_from([2.0, 3.0, 0.5]))
+        c = draw(st.sampled_from([1.0, 0.25]))
+        d = draw(st.sampled_from([1.0, 2.5]))
+        xv = draw(st.sampled_from([1.5, 3.0]))
+        mid = draw(st.sampled_from(["t_elim", "t_elim", "tq"]))
+        vars_ += [D.var("xs_elim"), D.var(mid), D.var("yq")]
+        vals["xs_elim"], vals[mid], vals["yq"] = xv, xv / k, xv / k - c
+        ders["xs_elim"], ders[mid], ders["yq"] = d, d / k, d / k
+        eqs += [["eq", ["var", "xs_elim"], ["bin", "*", lit(k), ["var", mid]]],
+                ["eq", ["var", mid], ["bin", "+", ["var", "yq"], lit(c)]],
+                ["eq", ["der", ["var", "xs_elim"]], lit(d)]]
+        kinds.append("eliminable_state_chain")
     shuffled = draw(st.permutations(list(range(len(eqs)))))
     ieqs = [["eq", ["var", s], lit(vals[s])] for s in states if draw(st.booleans())]
+    # a parameter and a constant that occur in initial equations only (never in the DAE equations)
+    only_init = plain_dae or draw(st.integers(0, 2)) == 0
+    if plain_dae:
+        kinds.append("dae_without_parameters")
+    if only_init:
+        vals["q0"], vals["k0"] = 2.5, 1.25
+        vars_ += [D.var("q0", prefix="parameter", value=["real", "2.5"]), D.var("k0", prefix="constant", value=["real", "1.25"])]
+        for i, q in enumerate(ieqs):
+            name = draw(st.sampled_from(["q0", "k0", "q0", None]))
+            if name is None:
+                continue
+            c = draw(st.sampled_from([1.0, 2.0, 0.5]))
+            rest = vals[q[1][1]] - c * vals[name]
+            rest_e = lit(rest) if rest >= 0 else ["neg", lit(-rest)]
+            term = ["var", name] if c == 1.0 else ["bin", "*", lit(c), ["var", name]]
+            ieqs[i] = ["eq", q[1], ["bin", "+", term, rest_e]]
+        kinds.append("initial_only_parameter")
     # initial equations over algebraic variables too (they hold at s* by construction), so that
     # eliminations must reach the initial equations as well
     for a in algs:
@@ -267,6 +305,13 @@ def case_strategy(draw):
     c["options"] = draw(option_set(c["family"], c["time"]))
     if c.get("cluster") and draw(st.integers(0, 3)) > 0:
         c["options"]["detect_aliases"] = True
+    if "eliminable_state_chain" in c["kinds"] and draw(st.integers(0, 3)) > 0:
+        c["options"]["eliminable_variable_expression"] = ".*_elim"
+        c["options"]["expand_mx"] = True
+    if "dae_without_parameters" in c["kinds"] and c["family"] == "affine" and not c["time"] and draw(st.integers(0, 3)) > 0:
+        # the affine reduction treats the two equation lists one after the other
+        c["options"]["reduce_affine_expression"] = True
+        c["options"]["iterative_simplification"] = False
     return c
 
 
@@ -327,6 +372,9 @@ def num_attr(x):
     return np.array(x, dtype=float)
 
 
+FAILURE_WARNINGS = ("exceeded maximum iteration limit", "not balanced")
+
+
 def run_case(ctx, case, which):
     import casadi as ca
     from pymoca import parser
@@ -356,7 +404,12 @@ def run_case(ctx, case, which):
                 raise
             ctx.extra["reported_failure:simplify:" + type(e).__name__] += 1
             raise Discard("simplify reports failure by exception")
-    warned = [r.getMessage()[:60] for r in log.records]
+    # "reports failure with a warning": the warnings that say the result is incomplete.  The others state
+    # something about a result that is still offered as valid (symbolic instead of numeric matrix, which
+    # start value was kept) and exempt nothing.
+    messages = [r.getMessage() for r in log.records]
+    warned = [t[:60] for t in messages if any(k in t for k in FAILURE_WARNINGS)]
+    info_warned = len(messages) > len(warned)
     tail = "\noptions=%r\n%s" % ({k: v for k, v in opts.items() if v}, text)
     # ---- functions must construct and evaluate (C15, and needed below)
     try:
@@ -393,6 +446,8 @@ def run_case(ctx, case, which):
         labels.append("opt:iterative")
     if removed > 0:
         labels.append("eliminated")
+    if info_warned:
+        labels.append("informational_warning")
     if which == "C15":
         if bal1 != bal0:
             raise Violation("balance_changed", "unknowns-equations was %d, is %d after simplify%s" % (bal0, bal1, tail))
